@@ -74,10 +74,10 @@ fn judge_parse(rec: &mut Rec, kind: Kind, input: &str, pattern: &str, tag: &'sta
     match r {
         Ok(Ok(true)) => rec.outcome("ok"),
         Ok(Ok(false)) => rec.outcome("err"),
-        Ok(Err(why)) => rec.violation(format!("C14|{}::parse|ok-but-invalid-value|{}", kind_name(kind), tag), || json!({"input": input, "pattern": pattern, "why": why})),
+        Ok(Err(why)) => rec.violation(format!("C14|{}::parse|ok-but-invalid-value|{}", kind_name(kind), tag), || json!({"input": truncate(input, 200), "pattern": truncate(pattern, 200), "why": why})),
         Err(p) => {
             rec.outcome("panic");
-            rec.violation(format!("C14|{}::parse|panic|{},{}", kind_name(kind), p.class, p.site()), || json!({"input": input, "pattern": pattern, "workload": tag, "panic": p.to_json()}));
+            rec.violation(format!("C14|{}::parse|panic|{},{}", kind_name(kind), p.class, p.site()), || json!({"input": truncate(input, 200), "pattern": truncate(pattern, 200), "workload": tag, "panic": p.to_json()}));
         }
     }
 }
@@ -108,7 +108,7 @@ fn judge_format(rec: &mut Rec, pattern: &str, vi: usize, vals: &[(i128, i32)], t
             Ok(_) => rec.outcome("string"),
             Err(p) => {
                 rec.outcome("panic");
-                rec.violation(format!("C14|{}::format|panic|{},{}", kind_name(kind), p.class, p.site()), || json!({"pattern": pattern, "value_utc": show(i), "offset": off, "workload": tag, "panic": p.to_json()}));
+                rec.violation(format!("C14|{}::format|panic|{},{}", kind_name(kind), p.class, p.site()), || json!({"pattern": truncate(pattern, 200), "value_utc": show(i), "offset": off, "workload": tag, "panic": p.to_json()}));
             }
         }
     }
@@ -183,7 +183,7 @@ fn judge_rfc(rec: &mut Rec, text: &str) {
         }
         Err(p) => {
             rec.outcome("panic");
-            rec.violation(format!("C14|DateTime::parse_rfc3339|panic|{},{}", p.class, p.site()), || json!({"text": text, "panic": p.to_json()}));
+            rec.violation(format!("C14|DateTime::parse_rfc3339|panic|{},{}", p.class, p.site()), || json!({"text": truncate(text, 300), "panic": p.to_json()}));
         }
     }
 }
@@ -200,7 +200,7 @@ fn judge_from_str(rec: &mut Rec, text: &str) {
                 }
             }
         }
-        Err(p) => rec.violation(format!("C14|Date/Time::from_str|panic|{},{}", p.class, p.site()), || json!({"text": text, "panic": p.to_json()})),
+        Err(p) => rec.violation(format!("C14|Date/Time::from_str|panic|{},{}", p.class, p.site()), || json!({"text": truncate(text, 300), "panic": p.to_json()})),
     }
 }
 
@@ -215,7 +215,7 @@ fn judge_cron(rec: &mut Rec, text: &str) {
         }
         Err(p) => {
             rec.outcome("panic");
-            rec.violation(format!("C14|CronSchedule::parse|panic|{},{}", p.class, p.site()), || json!({"expression": text, "panic": p.to_json()}));
+            rec.violation(format!("C14|CronSchedule::parse|panic|{},{}", p.class, p.site()), || json!({"expression": truncate(text, 300), "panic": p.to_json()}));
         }
     }
 }
@@ -371,17 +371,63 @@ pub fn run(ctx: &Ctx) -> PropResult {
             }
         }
     }));
-    let n_exh = combos.len() as u64 * per * 3 + npat * nin * 3;
+    // (4b) EXHAUSTIVE: a valid RFC 3339 date-time part followed by every short string over a hostile
+    // alphabet as the fraction/offset part (this is where byte-offset slicing happens)
+    let rfc_alpha: [&str; 9] = ["+", "-", "0", "5", ":", "Z", "é", "日", "."];
+    let rfc_len = ctx.n(5, 6) as u32;
+    let n_rfc = count_strings(9, rfc_len);
+    wls.push(Workload::chunks("exhaustive_rfc3339_tail", n_rfc * 2, 4096, move |rec, r| {
+        for idx in r {
+            let tail = nth_string(idx / 2, &rfc_alpha, rfc_len);
+            let text = if idx % 2 == 0 { format!("2022-05-02T15:30:20{}", tail) } else { format!("2022-05-02T15:30:20.5{}", tail) };
+            rec.cur_idx = idx;
+            judge_rfc(rec, &text);
+        }
+    }));
+    // (4c) cron fields holding long tokens of mixed character widths (error paths echo the token)
+    wls.push(Workload::cases("cron_long_tokens", ctx.count(20_000, 600_000), |rec, _, rng| {
+        let mut fields = ["*".to_string(), "*".to_string(), "*".to_string(), "*".to_string(), "*".to_string()];
+        let f = rng.below(5) as usize;
+        let len = 1 + rng.below(48);
+        let mut tok = String::new();
+        for _ in 0..len {
+            tok.push_str(*rng.pick(&["x", "ä", "€", "日", "\u{1F570}", "1", "-", ",", "/", "*", "a", "m"]));
+        }
+        fields[f] = match rng.below(4) {
+            0 => tok,
+            1 => format!("1-{}", tok),
+            2 => format!("*/{}", tok),
+            _ => format!("mon,{}", tok),
+        };
+        let text = fields.join(" ");
+        rec.nontrivial(hash_str(&text) ^ 0x4c);
+        rec.bin("cron-long-token");
+        judge_cron(rec, &text);
+    }));
+    // (5b) very long runs of one symbol: the run length becomes a padding width / repeat count
+    wls.push(Workload::cases("very_long_symbol_runs", 19 * 6, move |rec, idx, _| {
+        let c = "GyqMwdDeabhHKkmsnXx".chars().nth((idx % 19) as usize).unwrap();
+        let len = [255usize, 256, 65_535, 65_536, 70_000, 300_000][(idx / 19) as usize];
+        let pattern: String = std::iter::repeat(c).take(len).collect();
+        rec.nontrivial(mix64(idx ^ 0x5b));
+        rec.bin("very-long-symbol-run");
+        judge_format(rec, &pattern, idx as usize, vr, "very-long-symbol-run");
+        for kind in [Kind::DateTime, Kind::Date, Kind::Time] {
+            judge_parse(rec, kind, "2022", &pattern, "very-long-symbol-run");
+            judge_parse(rec, kind, &"0".repeat(len), &pattern, "very-long-symbol-run");
+        }
+    }));
+    let n_exh = combos.len() as u64 * per * 3 + npat * nin * 3 + n_rfc * 2;
     let mut out = run_workloads(ctx, wls);
     // the exhaustive workloads enumerate pairwise distinct (pattern, input) cases by construction
     out.rec.nontrivial_counter += n_exh;
     let mut meta = PropMeta::default();
     meta.exhaustive = true;
     meta.rule = format!(
-        "(1) EXHAUSTIVE: {} (symbol, width) runs x every input string of length ≤ {} over the alphabet {{0 1 9 - + a Z : é ' space .}} x 3 parse functions; (2) EXHAUSTIVE: every pattern of length ≤ 5 over {{' y T é space}} x every input of length ≤ {} over {{2 - T é ' space}} for parse (3 types) and the patterns for format on 7 values (BC, leap day, both range ends with offsets); (3) C12 round-trip material with delete/insert/replace/truncate mutations (multi-byte, NUL, quotes, signs, digits) of the input, the pattern, or both; (4) RFC 3339 / FromStr / cron strings under the same mutations, and range-end local times with offsets that push the UTC instant out of range; (5) 10 000-character inputs and patterns. Oracle: outcome class — Ok (then every getter/format of the value must also return and the value be in range), Err, or panic; only a panic (any class, both builds) or an invalid Ok value is a violation. Non-trivial = every mutated/enumerated case; exhaustive cases distinct by construction (counted), others by hash.",
+        "(1) EXHAUSTIVE: {} (symbol, width) runs x every input string of length ≤ {} over the alphabet {{0 1 9 - + a Z : é ' space .}} x 3 parse functions; (2) EXHAUSTIVE: every pattern of length ≤ 5 over {{' y T é space}} x every input of length ≤ {} over {{2 - T é ' space}} for parse (3 types) and the patterns for format on 7 values (BC, leap day, both range ends with offsets); (3) C12 round-trip material with delete/insert/replace/truncate mutations (multi-byte, NUL, quotes, signs, digits) of the input, the pattern, or both; (4) RFC 3339 / FromStr / cron strings under the same mutations, and range-end local times with offsets that push the UTC instant out of range; (4b) EXHAUSTIVE: a valid RFC 3339 date-time prefix followed by every string of length ≤ 5 (thorough 6) over {{+ - 0 5 : Z é 日 .}} as fraction/offset part; (4c) cron fields holding tokens of up to 48 characters of mixed byte widths; (5) 10 000-character inputs and patterns, and runs of 255 … 300 000 repetitions of each single symbol (the run length is used as a padding width). Oracle: outcome class — Ok (then every getter/format of the value must also return and the value be in range), Err, or panic; only a panic (any class, both builds) or an invalid Ok value is a violation. Non-trivial = every mutated/enumerated case; exhaustive cases distinct by construction (counted), others by hash.",
         combos.len(), max_len, in_len
     );
-    meta.required_bins = vec!["range-end-with-offset", "long-input"];
+    meta.required_bins = vec!["range-end-with-offset", "long-input", "very-long-symbol-run", "cron-long-token"];
     meta.assumptions = vec!["panics are observed through catch_unwind with a process-wide hook; a hang is caught by the per-case watchdog of the worker pool".into()];
     let _ = (Offset::Fixed(0), TimeUtilities::hour(&Time::default()), OffsetUtilities::get_offset(&Time::default()));
     Ok((meta, out))
